@@ -103,7 +103,7 @@ fn main() {
          through the flush_with closures in issue order (bucket puts ascending by bucket id, awaited one by one; metadata put = \
          commit; then deletion of FlushOutcome::obsolete). Crash states: every linear prefix, every subset of the bucket puts \
          without the commit, commit + every subset of the deletions; each is loaded with load_all and must answer the light \
-         battery (counters, every term, every boolean tree to depth 2) as the last committed model or as the interrupted flush's \
+         battery (counters, every term, 6 boolean shapes) as the last committed model or as the interrupted flush's \
          model (whole); from each distinct crash state 5 follow-up ops (insert new id, re-insert id 1, remove, purge_ids, compact) \
          each followed by flush + load + battery. Every write position is also failed once: flush must return Err, live index \
          unchanged, durable state = last commit or the failed flush in full, a retried flush persists the state",
